@@ -368,6 +368,7 @@ func (tb *tables) json() J {
 
 // ---------------------------------------------------------------- case emitters
 var seenValueCase = map[string]bool{}
+var corpusName = ""
 
 // value case: a value (generated, or accepted by a parser), its printed form, and what parsing that gives
 func emitValue(src string, v val) {
@@ -388,6 +389,9 @@ func emitValue(src string, v val) {
 	tb.addText(text)
 	res, v2 := parseKind(k, text)
 	j := J{"kind": "value", "src": src, "vk": k, "v": v.obs(), "text": hx(text), "parsed": res}
+	if corpusName != "" {
+		j["name"] = corpusName
+	}
 	if res["c"] == "ok" {
 		tb.addVal(v2)
 		j["retext"] = hx(v2.str())
@@ -693,7 +697,53 @@ func modeParse(tier string, n int, alpha string, maxlen int) {
 	}
 }
 
+// named corpus values: the known findings of C05 and boundary cases of the documented domain
+func corpusValues() []struct {
+	name string
+	v    val
+} {
+	type nv = struct {
+		name string
+		v    val
+	}
+	mkT := func(s val, p val, o val) val {
+		t, err := triple.New(s.n, p.p, objOf(o).o)
+		if err != nil {
+			panic(err)
+		}
+		return val{t: t}
+	}
+	t0 := time.Date(2006, 1, 2, 15, 4, 5, 999999999, time.FixedZone("", -7*3600))
+	return []nv{
+		{"node-type-lt", nodeOf("/a<b", "c")},
+		{"node-type-gt", nodeOf("/a>b", "c")},
+		{"node-id-delims", nodeOf("/a", "x] /y\t\"@[ \"^^type:")},
+		{"pred-id-anchor-marker", immOf("a\"@[b")},
+		{"pred-id-space", immOf("x y")},
+		{"pred-id-nonascii", tmpOf("é\xff\u00a0\\", t0)},
+		{"lit-text-type-marker", litOf(literal.Text, "x\"^^type:text")},
+		{"lit-text-type-marker-2", litOf(literal.Text, "\"^^type:bool")},
+		{"lit-nan-payload", litOf(literal.Float64, math.Float64frombits(0x7FF0000000000001))},
+		{"lit-nan-canonical", litOf(literal.Float64, math.NaN())},
+		{"lit-minint", litOf(literal.Int64, int64(math.MinInt64))},
+		{"lit-empty-blob", litOf(literal.Blob, []byte{})},
+		{"obj-pred-type-marker", objOf(immOf("x\"^^type:text"))},
+		{"triple-subject-id-split", mkT(nodeOf("/a", "x] /y"), immOf("p"), nodeOf("/b", "c"))},
+		{"triple-pred-id-split", mkT(nodeOf("/a", "b"), immOf("x] /y"), nodeOf("/c", "d"))},
+		{"triple-pred-id-space", mkT(nodeOf("/a", "b"), immOf("x y"), nodeOf("/c", "d"))},
+		{"triple-obj-pred-type-marker", mkT(nodeOf("/a", "b"), immOf("p"), immOf("x\"^^type:text"))},
+		{"triple-text-delims", mkT(nodeOf("/a", "b"), tmpOf("p", t0), litOf(literal.Text, "] /x> \"y\"@[]"))},
+	}
+}
+
 func modeValues(n int) {
+	for _, c := range corpusValues() {
+		before := len(seenValueCase)
+		corpusName = c.name
+		emitValue("corpus", c.v)
+		corpusName = ""
+		_ = before
+	}
 	for i := 0; i < n; i++ {
 		emitValue("generated", genVal())
 	}
@@ -793,12 +843,27 @@ func readCase(src, text string, tb *tables) J {
 }
 
 func modeGraph(n int) {
-	for i := 0; i < n; i++ {
+	s1, p1 := nodeOf("/a", "b"), immOf("p")
+	mk := func(o val) *triple.Triple { t, _ := triple.New(s1.n, p1.p, objOf(o).o); return t }
+	corpus := []struct {
+		name string
+		ts   []*triple.Triple
+	}{
+		{"graph-text-newline", []*triple.Triple{mk(litOf(literal.Text, "a\nb"))}},
+		{"graph-node-id-newline", []*triple.Triple{mk(nodeOf("/c", "d\ne"))}},
+		{"graph-text-cr", []*triple.Triple{mk(litOf(literal.Text, "a\rb\r")), mk(litOf(literal.Text, " x "))}},
+		{"graph-uuid-collision", []*triple.Triple{mk(litOf(literal.Text, "true")), mk(litOf(literal.Bool, true))}},
+	}
+	for i := -len(corpus); i < n; i++ {
 		k := rnd.Intn(8)
-		if i%10 == 0 {
+		if i >= 0 && i%10 == 0 {
 			k = rnd.Intn(31)
 		}
 		var ts []*triple.Triple
+		name := ""
+		if i < 0 {
+			ts, name, k = corpus[i+len(corpus)].ts, corpus[i+len(corpus)].name, 0
+		}
 		for j := 0; j < k; j++ {
 			if len(ts) > 0 && rnd.Intn(8) == 0 {
 				ts = append(ts, ts[rnd.Intn(len(ts))])
@@ -830,6 +895,14 @@ func modeGraph(n int) {
 		var buf bytes.Buffer
 		wcnt, werr := bwio.WriteGraph(context.Background(), &buf, g)
 		j := J{"kind": "graph", "triples": tj, "stored": hxs(stored), "wcnt": wcnt, "werr": werr != nil, "wtext": hx(buf.String())}
+		if name != "" {
+			j["name"] = name
+		}
+		var us []string
+		for _, t := range ts {
+			us = append(us, safeUUID(val{t: t}))
+		}
+		j["uuids"] = us
 		wl := strings.Split(strings.TrimSuffix(buf.String(), "\n"), "\n")
 		if buf.Len() == 0 {
 			wl = nil
